@@ -580,7 +580,9 @@ func runC20(w *core.WorkerCtx, idx int) *core.CaseResult {
 			}
 			var in []probeEv
 			for _, e := range es {
-				if !e.arrive.Before(pr.startHi) && e.arrive.Before(pEnd) {
+				// probes carry the moment they left the explorer, which can lie inside the bracket of the update that
+				// made the target known (the coordinator asks for it at once): they belong to this period
+				if !e.arrive.Before(pr.startLo) && e.arrive.Before(pEnd) {
 					in = append(in, e)
 				}
 			}
@@ -589,7 +591,7 @@ func runC20(w *core.WorkerCtx, idx int) *core.CaseResult {
 				strayBudget = 1
 				prev := periods[id][pi-1]
 				for _, e := range es {
-					if e.arrive.After(prev.endLo) && e.arrive.Before(pr.startHi) {
+					if e.arrive.After(prev.endLo) && e.arrive.Before(pr.startLo) {
 						strayBudget = 0 // the old incarnation's outstanding probe was sent between the periods
 					}
 				}
